@@ -32,6 +32,7 @@ EXPLANATION = ("a: parse_rule_attributes assigns each RuleAttributes field under
                "begins with an optional `-`.")
 FLOORS = {"attributes": 6, "condition_regexes": 3, "scanners": 8}
 EXPLANATION += ' f: the ConditionGroup constructors are plain wrappers (shared with C01.b). g: inventory of run-removing / rewriting / case-folding string operations (trim_*_matches, replace, to_lowercase, retain ...) in the GRL parser: each removes only layout, or its result is only compared (keyword match), or it is in the reviewed table with its reason; anything else changes the text the next parsing step sees.'
+EXPLANATION += " d (added): a character scanner may not flip one in-string flag on both quote characters. h: lexical agreement - is_identifier's continuation predicate admits digits, like the field names `[a-zA-Z_][a-zA-Z0-9_]*` of the condition patterns (shared with C01)."
 
 GP = "parser::grl::GRLParser"
 OPS = "types::Operator"
